@@ -152,6 +152,13 @@ func (ph *peerHandler) startIfDisconnected() {
 	ph.mu.Lock()
 	defer ph.mu.Unlock()
 
+	// This runs in its own goroutine (see netNotifee.Disconnected), so it may
+	// be scheduled after the handler was stopped. Never re-arm a stopped
+	// handler, otherwise it would keep dialing forever.
+	if ph.ctx.Err() != nil {
+		return
+	}
+
 	if ph.reconnectTimer == nil && ph.host.Network().Connectedness(ph.peer) != network.Connected {
 		logger.Debugw("disconnected from peer", "peer", ph.peer)
 		// Always start with a short timeout so we can stagger things a bit.
